@@ -59,7 +59,12 @@ MetaEdits == {"op_desc_added", "op_desc_changed", "param_desc_added", "param_des
               "scheme_added", "host_changed", "basepath_changed", "definition_added", "resp_added_with_schema",
               "header_type_changed", "param_type_and_default",
               \* a list that is wholly absent on one side
-              "tags_from_none", "schemes_from_none", "consumes_from_none"}
+              "tags_from_none", "schemes_from_none", "consumes_from_none",
+              \* descriptions at NESTED locations at once (operation, parameter, response schema, a property, an object
+              \* property and a property of it): differences of one kind whose locations are prefixes of one another
+              "desc_nested_added", "desc_nested_changed",
+              \* a vendor extension whose value is JSON null (the key is present, the value is not): it gets a value / it stays
+              "ext_null_to_value", "ext_null_kept"}
 MetaCases == {Desc("meta", "-", "-", e, s) : e \in MetaEdits, s \in BOOLEAN}
 
 CaseSpace == {c \in LeafCases : LeafCaseOK(c)} \cup Leaf2Cases \cup StructCases \cup MetaCases
@@ -91,6 +96,11 @@ MetaParam(extra) == ParamOf("query", [type |-> "string"] @@ extra, FALSE, "csv")
 MetaBase == [RespAOS(PropsAB, HdrsXY, {"r200"}) EXCEPT !.params = <<MetaParam(<<>>)>>]
 WithParam(extra) == [MetaBase EXCEPT !.params = <<MetaParam(extra)>>]
 PropsDesc(d) == [a |-> [type |-> "string", description |-> d], e |-> [type |-> "string", enum |-> <<"a", "ab">>]]
+PropsNest(D) == [a |-> [type |-> "string"] @@ D, e |-> [type |-> "string", enum |-> <<"a", "ab">>],
+                 o |-> [type |-> "object", properties |-> [n |-> [type |-> "string"] @@ D]] @@ D]
+NestDoc(D, od) ==
+  LET b == [MetaBase EXCEPT !.responses.r200.schema = [type |-> "object", properties |-> PropsNest(D)] @@ D, !.params = <<MetaParam(D)>>]
+  IN IF od = "" THEN b ELSE Put(b, "opdesc", od)
 MetaPair(e) ==
   CASE e = "op_desc_added"     -> <<MetaBase, Put(MetaBase, "opdesc", "first text")>>
     [] e = "op_desc_changed"   -> <<Put(MetaBase, "opdesc", "first text"), Put(MetaBase, "opdesc", "second text")>>
@@ -107,6 +117,9 @@ MetaPair(e) ==
     [] e = "consumes_from_none"-> <<[MetaBase EXCEPT !.consumes = <<>>], [MetaBase EXCEPT !.consumes = <<"application/json", "application/xml">>]>>
     [] e = "ext_added"         -> <<MetaBase, Put(MetaBase, "ext", [xa |-> "1"])>>
     [] e = "ext_changed"       -> <<Put(MetaBase, "ext", [xa |-> "1"]), Put(MetaBase, "ext", [xa |-> "2"])>>
+    [] e = "ext_null_to_value" -> <<Put(MetaBase, "ext", [xa |-> "NULL"]), Put(MetaBase, "ext", [xa |-> "1"])>>
+    [] e = "ext_null_kept"     -> <<Put(Put(MetaBase, "ext", [xa |-> "NULL", xb |-> "1"]), "tags", <<"t1">>),
+                                    Put(Put(MetaBase, "ext", [xa |-> "NULL", xb |-> "2"]), "tags", <<"t1", "t2">>)>>
     [] e = "default_added"     -> <<MetaBase, WithParam([default |-> Str("a")])>>
     [] e = "default_changed"   -> <<WithParam([default |-> Str("a")]), WithParam([default |-> Str("ab")])>>
     [] e = "example_added"     -> <<MetaBase, WithParam([example |-> Str("a")])>>
@@ -118,6 +131,8 @@ MetaPair(e) ==
     [] e = "definition_added"  -> <<MetaBase, [MetaBase EXCEPT !.defs = [Unused |-> [type |-> "object"]]]>>
     [] e = "resp_added_with_schema" -> <<MetaBase, [MetaBase EXCEPT !.responses = [c \in {"r200", "r201"} |-> MetaBase.responses.r200]]>>
     [] e = "header_type_changed" -> <<MetaBase, [MetaBase EXCEPT !.responses.r200.headers.Y = [type |-> "string"]]>>
+    [] e = "desc_nested_added"   -> <<NestDoc(<<>>, ""), NestDoc([description |-> "first text"], "first text")>>
+    [] e = "desc_nested_changed" -> <<NestDoc([description |-> "first text"], "first text"), NestDoc([description |-> "second text"], "second text")>>
     [] e = "param_type_and_default" -> <<WithParam([default |-> Str("a")]),
                                          [MetaBase EXCEPT !.params = <<ParamOf("query", [type |-> "integer", default |-> Num(4)], FALSE, "csv")>>]>>
 
